@@ -265,6 +265,31 @@ def run_history(hist, sess):
     return fails
 
 
+def interrupted_close(ctx):
+    """Ctrl-C while close() is waiting for busy workers (inside a with-block): nobody may outlive the pool"""
+    import json
+    import subprocess
+    import sys
+    from pathlib import Path
+    for how in ('with', 'close-again'):
+        try:
+            p = subprocess.run([sys.executable, str(Path(__file__).resolve().parent / 'c09_case.py'), 'interrupted-close', how],
+                               capture_output=True, text=True, timeout=90, start_new_session=True)
+            lines = [l for l in p.stdout.splitlines() if l.startswith('RESULT ')]
+            res = json.loads(lines[-1][7:]) if lines else {'crash': (p.stdout + p.stderr)[-300:]}
+        except subprocess.TimeoutExpired:
+            res = {'hang': True}
+        ctx.case(('interrupted-close', how), True, sample={'case': 'KeyboardInterrupt during Pool.close() with busy workers', 'then': how, 'observed': res})
+        if res.get('hang') or res.get('crash'):
+            ctx.fail(f'interrupted-close-{"hangs" if res.get("hang") else "crashed"}:{how}', f'close() interrupted by Ctrl-C ({how}): {res}', {'scenario': 'interrupted-close', 'how': how})
+        elif not res.get('interrupted'):
+            ctx.notes.append(f'interrupted-close ({how}): the interrupt did not arrive during close() - scenario not exercised')
+        elif res.get('alive_pids') or res.get('alive_workers'):
+            ctx.fail(f'child-outlives-pool:process:interrupted-close:{how}', f'Ctrl-C arrived while close() was waiting for busy workers; after '
+                     f'{"the with-block was left through the exception" if how == "with" else "the with-block was left and terminate() was called again"} '
+                     f'worker processes {res.get("alive_pids")} are still running', {'scenario': 'interrupted-close', 'how': how})
+
+
 def main(ctx: Ctx):
     ctx.assumptions += [
         'process death and reaping are OS facts: checked in /proc 0.3 s after the pool was left',
@@ -295,6 +320,7 @@ def main(ctx: Ctx):
         [('add', 'process', 'ok'), ('add', 'process', 'ok'), ('run', [5, -2]), ('exit', 'close')],
     ]
     hists += [gen_history(rng, remote_ok=(i % 4 == 0)) for i in range(8 if not T else 80)]
+    interrupted_close(ctx)
     sess = inject.Session()
     try:
         for hi, h in enumerate(hists):
@@ -313,6 +339,13 @@ def main(ctx: Ctx):
 
 
 def replay(case):
+    if case.get('scenario') == 'interrupted-close':
+        class C:
+            def case(self, *a, **k): print('observed', k.get('sample'))
+            def fail(self, sig, what, desc): print('FAIL', sig, what)
+            notes = []
+        interrupted_close(C())
+        return
     sess = inject.Session()
     try:
         print(run_history([tuple(o) if not isinstance(o, tuple) else o for o in map(lambda o: tuple(o), case['history'])], sess))
